@@ -59,13 +59,23 @@ fn stmts_depth1(inner_len: usize) -> Vec<S> {
     v
 }
 
+type Bound = [Option<Ty>; 2];
+
 struct Builder<'a> {
     next_const: u128,
+    next_ty: usize,
     funcs: Vec<Item>,
     g: crate::gen::Gen<'a>,
 }
 
 impl<'a> Builder<'a> {
+    /// Binding sites rotate through several integer types, so that a name is bound at
+    /// different types on different nesting levels (a resolver that mixes levels up then
+    /// mistypes the program instead of only reading another constant).
+    fn ty(&mut self) -> Ty {
+        self.next_ty += 1;
+        [Ty::U(8), Ty::U(16), Ty::U(8), Ty::U(32), Ty::U(16)][self.next_ty % 5].clone()
+    }
     fn c(&mut self) -> Expr {
         self.next_const = self.next_const % 250 + 1;
         Expr::Int(self.next_const.to_string())
@@ -73,21 +83,24 @@ impl<'a> Builder<'a> {
     fn name(i: usize) -> &'static str {
         ["a", "b"][i]
     }
-    fn val_or_const(&mut self, i: usize, bound: &[bool; 2]) -> Expr {
-        if bound[i] {
-            Expr::var(Self::name(i))
-        } else {
-            self.c()
-        }
-    }
-    fn probes(&mut self, bound: &[bool; 2], out: &mut Vec<Stmt>) {
-        for i in 0..2 {
-            if bound[i] {
-                self.g.probe(&Expr::var(Self::name(i)), &Ty::U(8), out, 0);
+    /// the current value of name `i` (with its type), or a fresh constant of a fresh type
+    fn val_or_const(&mut self, i: usize, bound: &Bound) -> (Expr, Ty) {
+        match &bound[i] {
+            Some(t) => (Expr::var(Self::name(i)), t.clone()),
+            None => {
+                let t = self.ty();
+                (self.c(), t)
             }
         }
     }
-    fn block(&mut self, ss: &[S], bound: &mut [bool; 2]) -> Vec<Stmt> {
+    fn probes(&mut self, bound: &Bound, out: &mut Vec<Stmt>) {
+        for i in 0..2 {
+            if let Some(t) = &bound[i] {
+                self.g.probe(&Expr::var(Self::name(i)), t, out, 0);
+            }
+        }
+    }
+    fn block(&mut self, ss: &[S], bound: &mut Bound) -> Vec<Stmt> {
         let mut out = vec![];
         self.probes(bound, &mut out);
         for s in ss {
@@ -96,84 +109,91 @@ impl<'a> Builder<'a> {
         }
         out
     }
-    fn stmt(&mut self, s: &S, bound: &mut [bool; 2], out: &mut Vec<Stmt>) {
-        let u8t = Ty::U(8);
+    fn stmt(&mut self, s: &S, bound: &mut Bound, out: &mut Vec<Stmt>) {
         match s {
             S::Leaf(k) => match k {
                 0 | 1 => {
                     let i = *k as usize;
+                    let t = self.ty();
                     let e = self.c();
-                    out.push(let_(Self::name(i), u8t, e));
-                    bound[i] = true;
+                    out.push(let_(Self::name(i), t.clone(), e));
+                    bound[i] = Some(t);
                 }
                 2 | 3 => {
-                    let (x, y) = if *k == 2 { ("a", "b") } else { ("b", "a") };
+                    let (x, y) = if *k == 2 { (0, 1) } else { (1, 0) };
+                    let (tx, ty) = (self.ty(), self.ty());
                     let e = Expr::Tuple(vec![self.c(), self.c()]);
                     out.push(Stmt::Let(
-                        Pat::Tuple(vec![Pat::Id(x.into()), Pat::Id(y.into())]),
-                        Ty::Tuple(vec![u8t.clone(), u8t]),
+                        Pat::Tuple(vec![Pat::Id(Self::name(x).into()), Pat::Id(Self::name(y).into())]),
+                        Ty::Tuple(vec![tx.clone(), ty.clone()]),
                         e,
                     ));
-                    *bound = [true, true];
+                    bound[x] = Some(tx);
+                    bound[y] = Some(ty);
                 }
                 4 => {
+                    let t = self.ty();
                     let e = Expr::Array(vec![self.c(), self.c()]);
-                    out.push(Stmt::Let(Pat::Array(vec![Pat::Id("a".into()), Pat::Ignore]), Ty::arr(u8t, 2), e));
-                    bound[0] = true;
+                    out.push(Stmt::Let(Pat::Array(vec![Pat::Id("a".into()), Pat::Ignore]), Ty::arr(t.clone(), 2), e));
+                    bound[0] = Some(t);
                 }
                 5 => {
+                    let (t0, tb, ta) = (self.ty(), self.ty(), self.ty());
                     let e = Expr::Tuple(vec![self.c(), Expr::Tuple(vec![self.c(), self.c()])]);
                     out.push(Stmt::Let(
                         Pat::Tuple(vec![Pat::Ignore, Pat::Tuple(vec![Pat::Id("b".into()), Pat::Id("a".into())])]),
-                        Ty::Tuple(vec![u8t.clone(), Ty::Tuple(vec![u8t.clone(), u8t])]),
+                        Ty::Tuple(vec![t0, Ty::Tuple(vec![tb.clone(), ta.clone()])]),
                         e,
                     ));
-                    *bound = [true, true];
+                    *bound = [Some(ta), Some(tb)];
                 }
                 6 | 7 => {
                     // let a = b / let b = a: the right-hand side sees only earlier bindings
                     let (dst, src) = if *k == 6 { (0, 1) } else { (1, 0) };
-                    let e = self.val_or_const(src, bound);
-                    out.push(let_(Self::name(dst), u8t, e));
-                    bound[dst] = true;
+                    let (e, t) = self.val_or_const(src, bound);
+                    out.push(let_(Self::name(dst), t.clone(), e));
+                    bound[dst] = Some(t);
                 }
                 _ => {
                     // call: the function body sees only its parameters (which are swapped)
                     let fname = format!("f{}", self.funcs.len());
-                    let mut fb = [true, true];
+                    let (x, tx) = self.val_or_const(0, bound);
+                    let (y, ty) = self.val_or_const(1, bound);
+                    // parameters (b, a) receive the arguments (a, b)
+                    let mut fb: Bound = [Some(ty.clone()), Some(tx.clone())];
                     let mut body = vec![];
                     self.probes(&fb, &mut body);
+                    let t_inner = self.ty();
                     let inner = self.c();
-                    body.push(let_("a", u8t.clone(), inner));
-                    fb[0] = true;
+                    body.push(let_("a", t_inner.clone(), inner));
+                    fb[0] = Some(t_inner);
                     self.probes(&fb, &mut body);
                     self.funcs.push(Item::Func(Func {
                         name: fname.clone(),
-                        params: vec![("b".into(), u8t.clone()), ("a".into(), u8t.clone())],
-                        ret: Some(u8t.clone()),
+                        params: vec![("b".into(), tx.clone()), ("a".into(), ty.clone())],
+                        ret: Some(tx.clone()),
                         body: Expr::block(body, Some(Expr::var("b"))),
                     }));
-                    let x = self.val_or_const(0, bound);
-                    let y = self.val_or_const(1, bound);
-                    out.push(let_("b", u8t, Expr::call(CallName::Fn(fname), vec![x, y])));
-                    bound[1] = true;
+                    out.push(let_("b", tx.clone(), Expr::call(CallName::Fn(fname), vec![x, y])));
+                    bound[1] = Some(tx);
                 }
             },
             S::LetBlock(ss) => {
-                let mut inner = *bound;
+                let mut inner = bound.clone();
                 let stmts = self.block(ss, &mut inner);
-                let last = self.val_or_const(1, &inner);
-                out.push(let_("a", u8t, Expr::block(stmts, Some(last))));
-                bound[0] = true;
+                let (last, t) = self.val_or_const(1, &inner);
+                out.push(let_("a", t.clone(), Expr::block(stmts, Some(last))));
+                bound[0] = Some(t);
             }
             S::BareBlock(ss) => {
-                let mut inner = *bound;
+                let mut inner = bound.clone();
                 let stmts = self.block(ss, &mut inner);
                 out.push(Stmt::Expr(Expr::block(stmts, None)));
             }
             S::MatchSome(ss) => {
-                let mut inner = *bound;
-                inner[0] = true;
+                let t = self.ty();
+                let mut inner = bound.clone();
+                inner[0] = Some(t.clone());
                 let stmts = self.block(ss, &mut inner);
                 let mut none_arm = vec![];
                 self.probes(bound, &mut none_arm);
@@ -181,31 +201,33 @@ impl<'a> Builder<'a> {
                 out.push(Stmt::Expr(Expr::Match(
                     Box::new(scrut),
                     Box::new([
-                        Arm { pat: MatchPat::Some_("a".into(), u8t.clone()), body: Expr::block(stmts, None) },
+                        Arm { pat: MatchPat::Some_("a".into(), t), body: Expr::block(stmts, None) },
                         Arm { pat: MatchPat::None_, body: Expr::block(none_arm, None) },
                     ]),
                 )));
             }
             S::MatchEither(ss, right) => {
-                let mut il = *bound;
-                il[1] = true;
+                let (tl, tr) = (self.ty(), self.ty());
+                let mut il = bound.clone();
+                il[1] = Some(tl.clone());
                 let ls = self.block(ss, &mut il);
-                let mut ir = *bound;
-                ir[0] = true;
+                let mut ir = bound.clone();
+                ir[0] = Some(tr.clone());
                 let rs = self.block(ss, &mut ir);
                 let c = self.c();
                 let scrut = if *right { Expr::Right(Box::new(c)) } else { Expr::Left(Box::new(c)) };
                 out.push(Stmt::Expr(Expr::Match(
                     Box::new(scrut),
                     Box::new([
-                        Arm { pat: MatchPat::Left("b".into(), u8t.clone()), body: Expr::block(ls, None) },
-                        Arm { pat: MatchPat::Right("a".into(), u8t.clone()), body: Expr::block(rs, None) },
+                        Arm { pat: MatchPat::Left("b".into(), tl), body: Expr::block(ls, None) },
+                        Arm { pat: MatchPat::Right("a".into(), tr), body: Expr::block(rs, None) },
                     ]),
                 )));
             }
         }
     }
 }
+
 
 fn random_structure(rng: &mut Rng, depth: usize, maxlen: usize) -> Vec<S> {
     let n = rng.below(maxlen + 1);
@@ -290,8 +312,8 @@ pub fn run(cx: &mut Ctx) {
 
 fn one_structure(cx: &mut Ctx, structure: &[S], i: u64) {
     let g = prober(cx, false);
-    let mut b = Builder { next_const: (i % 200) as u128, funcs: vec![], g };
-    let mut bound = [false, false];
+    let mut b = Builder { next_const: (i % 200) as u128, next_ty: (i % 5) as usize, funcs: vec![], g };
+    let mut bound: Bound = [None, None];
     let stmts = b.block(structure, &mut bound);
     let holes = b.g.prog.holes.clone();
     let mut items = b.funcs;
